@@ -64,6 +64,11 @@ CHECKS = {
    technique="explicit-state BFS over source histories; for every reachable source state every permutation (and single-frame duplication) of the import order through the real POST /cas and POST /import routes, differential oracle source vs target",
    text="Every source store reachable by the C20 menu (register, appends in 2-3 contexts with all persistent TTLs, shared content, removes, GC) up to the reported depth is exported as xs.nu does and imported through HTTP into a fresh store in every permutation of its <=4 frames plus every single-frame duplication; source and target must agree on every stream, head, by-id lookup, content and usable context (tested by real appends), re-import must be a no-op and a NUL-topic frame must be rejected whole.",
    note=E1_NOTE),
+
+ "C04": dict(engine="E3-crash", cat="fault_enumeration", ref="DESIGN.md §5 C04, §4 E3",
+   technique="exhaustive crash-point enumeration: strace of the real write paths, every syscall prefix materialised as process-kill / power-loss / torn-write images, each reopened by a fresh process and compared with the acknowledged history",
+   text="Four scripted histories over the real write paths (Store API; 12 KiB frames whose batches exceed fjall's 8 KiB buffer; the HTTP routes with CAS bodies; forced memtable flushes with segment files, journal rotation and manifest renames) are traced at system-call granularity. For every prefix of the store-directory mutations from the first acknowledged operation on, the process-kill image and - wherever the journal holds unsynced bytes - the power-loss image and torn tails of the last unsynced write are reopened: the store must open, every acknowledged append/remove/import must be reflected, the operation in flight must be all-or-nothing across by-id / all-stream / context-stream / head, the registry must equal the stored registrations, and on kill images every visible hash must have its content.",
+   note="Trusted: strace's rendering (checked: the interpreted final state equals the real directory byte for byte), fjall's recovery code is the subject not the model. Power loss is modelled as loss of unsynced journal suffixes and torn tails, not arbitrary sector reordering; directory entries are kept; crash points inside the first creation of the store directory and double faults are not enumerated."),
 }
 NOT_YET = {}
 ALL = ["C%02d" % i for i in range(1, 21)]
@@ -102,6 +107,8 @@ def main():
             "add_only": True,
         },
         "engines": [
+            {"name": "E3-crash", "path": "crash/crashenum.py, engine/src/crash.rs", "serves_properties": ["C04"],
+             "kind_free_text": "strace-based crash-image enumerator (python) + traced driver and recovery checker (Rust)"},
             {"name": "E4-http", "path": "engine/src/http.rs, engine/src/e4.rs", "serves_properties": ["C13", "C12"],
              "kind_free_text": "real api::serve on a fresh store per sequence, raw HTTP/1.1 client over the unix socket, exhaustive request sequences"},
             {"name": "E6-enum", "path": "engine/src/e6.rs", "serves_properties": ["C12"],
